@@ -114,6 +114,21 @@ def sp_random(rng):
     else: mx = rng.choice([10, 100])
     return {'op': 'sp', 'path': path, 'min': mn, 'max': mx, 'rest': rng.random() < 0.5}
 
+def sp_valid(rng):
+    """mostly accepted calls: segment count drawn around [minsegs, maxsegs], leading segments non-empty"""
+    mn = rng.randint(1, 4)
+    mx = rng.choice([None, 0, mn, mn + 1, mn + 2, mn + 3])
+    M = mx if mx else mn
+    rest = rng.random() < 0.5
+    n = rng.choice([mn, M, rng.randint(mn, M), M + 1, mn - 1, M + 2])
+    pool = ['a', 'bc', 'b.c', 'd e', 'é', '%41', '😀']
+    segs = [rng.choice(pool) for _ in range(max(n, 0))]
+    r = rng.random()
+    if segs and r < 0.15: segs[rng.randrange(len(segs))] = ''
+    trail = rng.choice(['', '', '', '/', '/', '//'])
+    lead = '/' if rng.random() < 0.93 else rng.choice(['', '//', 'x'])
+    return {'op': 'sp', 'path': lead + '/'.join(segs) + trail, 'min': mn, 'max': mx, 'rest': rest}
+
 PRINTABLE = [chr(c) for c in range(32, 127)]
 ITEM_HOT = [',', '"', '\\', ' ', 't', 'n', 'f', 'r', 'x', 'u', '0', '3', '2', '4', '7', 'a', 'F']
 
@@ -161,6 +176,27 @@ def malformed(rng):
     sep = rng.choice([',', ',', ', ', ' ,'])
     return k, sep.join(fields)
 
+QBODY = ['a', 'b', 'Z', '1', ' ', ',', "'", '\\\\', '\\"', '\\t', '\\n', '\\f', '\\r', '\\0', '\\03', '\\73', '\\x12', '\\xA2', '\\xg2',
+         '\\uB4', '\\u00e9', '\\q', '\\,', '\\ ', 'é', '😀', '\x00', '\x7f', '3', '2', '4', 'x', 'u']
+PAD = ['', '', '', ' ', '  ', '\t', '\n', '\r\n', ' \t ']
+
+def structured_raw(rng):
+    """mostly well-formed text in the grammar's own terms: words and quoted strings (with every escape form
+    pyparsing knows) separated by commas with optional white padding; one random edit in a quarter of the cases"""
+    fields = []
+    for _ in range(rng.randint(1, 4)):
+        if rng.random() < 0.5:
+            f = ''.join(rng.choice(WORD_OK + ['\\']) for _ in range(rng.randint(1, 4)))
+        else:
+            f = '"' + ''.join(rng.choice(QBODY) for _ in range(rng.randint(0, 5))) + '"'
+        fields.append(rng.choice(PAD) + f + rng.choice(PAD))
+    v = ','.join(fields)
+    if rng.random() < 0.25 and v:
+        i = rng.randrange(len(v)); r = rng.random()
+        c = rng.choice(['"', '\\', ',', ' ', 'a', '\n', '\t'])
+        v = v[:i] + (c + v[i:] if r < 0.4 else v[i + 1:] if r < 0.7 else c + v[i + 1:])
+    return v
+
 def sbc_cases(rng, n_rt, n_raw, n_mal, n_q):
     for s in ['', ' ', ',', 'a', 'a,b', '"a b","c,d"', '""', '"', '\\', '"\\"', '"\\""', 'a,', ',a', 'a,,b', '"a"b', 'a"b"', ' a , "b" ', '\ta\t,\tb', '"a\tb"',
               '"\\t\\n\\f\\r\\0\\03\\73\\x12\\xA2\\uB4\\q\\\\"', 'a\\b', '"a\nb"', '"a\rb"', '"\\\n"', '"\\\r"', 'é', '"é"', 'a\xa0b', '\x0ca']:
@@ -170,7 +206,8 @@ def sbc_cases(rng, n_rt, n_raw, n_mal, n_q):
     for _ in range(n_rt):
         yield {'op': 'rt', 'items': [rand_item(rng, allow_empty=rng.random() < 0.06) for _ in range(rng.randint(1, 5))]}
     for _ in range(n_raw):
-        yield {'op': 'raw', 'v': ''.join(rng.choice(RAW_ALPHA) for _ in range(rng.randint(0, 10)))}
+        if rng.random() < 0.6: yield {'op': 'raw', 'v': structured_raw(rng)}
+        else: yield {'op': 'raw', 'v': ''.join(rng.choice(RAW_ALPHA) for _ in range(rng.randint(0, 10)))}
     for _ in range(n_mal):
         k, v = malformed(rng)
         yield {'op': 'mal', 'kind': k, 'v': v}
@@ -184,8 +221,12 @@ def gen_cases(rng, tier):
     yield from sp_exhaustive(3 if quick else 4)
     for _ in range(4000 if quick else 120000):
         yield sp_random(rng)
+    for _ in range(3000 if quick else 60000):
+        yield sp_valid(rng)
     for _ in range(200 if quick else 3000):
-        yield {'op': 'spd', 'path': sp_random(rng)['path']}
+        r = rng.random()
+        if r < 0.5: yield {'op': 'spd', 'path': rng.choice(['/', '/', '/', '', '//']) + rng.choice(SEGS_WIDE) + rng.choice(['', '', '/', '//'])}
+        else: yield {'op': 'spd', 'path': (sp_random(rng) if r < 0.7 else sp_valid(rng))['path']}
     if quick: yield from sbc_cases(rng, 1500, 1500, 600, 300)
     else: yield from sbc_cases(rng, 40000, 40000, 12000, 3000)
 
@@ -224,6 +265,8 @@ def oracle(c, io):
         if mn >= 1:
             want = decl_split_path(c['path'], mn, mx, rest)
             want = 'EXN:ValueError' if want == 'VE' else canon_list(want)
+            if mx == 0 and mx is not None and io == 'EXN:ValueError':
+                return None     # maxsegs=0: the code reads it as "not given"; "minsegs > maxsegs -> ValueError" read literally is also within the statement
             if io != want:
                 return 'split_path(%r, %r, %r, %r) gives %s, the contract says %s' % (c['path'], mn, mx, rest, io, want)
             if want != 'EXN:ValueError' and io.count('|') != (mx if mx else mn):
@@ -263,9 +306,9 @@ def search(rng, budget):
     yield from sp_exhaustive(4)
     n = 0
     while n < budget:
-        yield sp_random(rng); n += 1
+        yield sp_random(rng); yield sp_valid(rng); n += 2
         if n % 4 == 0:
-            for c in sbc_cases(rng, 2, 2, 1, 0): pass
+            yield {'op': 'raw', 'v': structured_raw(rng)}
             yield {'op': 'rt', 'items': [rand_item(rng, allow_empty=rng.random() < 0.06) for _ in range(rng.randint(1, 5))]}
             yield {'op': 'raw', 'v': ''.join(rng.choice(RAW_ALPHA) for _ in range(rng.randint(0, 10)))}
             k, v = malformed(rng)
